@@ -164,18 +164,7 @@ func main() {
 			if err != nil {
 				fail(err)
 			}
-			if *mutate != "" {
-				for _, ed := range mutations[*mutate].edits {
-					if ed.file != rel {
-						continue
-					}
-					if !strings.Contains(string(raw), ed.old) {
-						fail("mutation", *mutate, "does not apply to", rel)
-					}
-					raw = []byte(strings.Replace(string(raw), ed.old, ed.new, 1))
-					mutApplied++
-				}
-			}
+			raw = applyMutation(*mutate, rel, raw, &mutApplied)
 			src, err := rewriteFile(f, rel, raw, tg.mode)
 			if err != nil {
 				fail(rel, err)
@@ -186,9 +175,6 @@ func main() {
 			}
 			overlay[f] = dst
 		}
-	}
-	if *mutate != "" && (mutApplied == 0 || mutApplied != len(mutations[*mutate].edits)) {
-		fail("unknown or inapplicable mutation", *mutate)
 	}
 	// every other non-test file of the module, "light" mode: goroutines, selects, channel operations,
 	// locks, waits, sleeps and sync.Pool are put under the simulator's control wherever they sit (a change
@@ -214,6 +200,7 @@ func main() {
 			return nil
 		}
 		rel, _ := filepath.Rel(repo, path)
+		raw = applyMutation(*mutate, rel, raw, &mutApplied)
 		src, err := rewriteFile(path, rel, raw, "light")
 		if err != nil {
 			fail(rel, err)
@@ -225,6 +212,9 @@ func main() {
 		overlay[path] = dst
 		return nil
 	})
+	if *mutate != "" && (mutApplied == 0 || mutApplied != len(mutations[*mutate].edits)) {
+		fail("unknown or inapplicable mutation", *mutate)
+	}
 	for _, pk := range [][3]string{{"ttlv", "ttlv", "VerifResetPlanCaches"}, {".", "kmip", "VerifResetCaches"}, {"payloads", "payloads", "VerifResetCaches"}} {
 		added := filepath.Join(out, strings.ReplaceAll(pk[1], "/", "_")+"__zz_kmipverif.go")
 		if err := os.WriteFile(added, []byte(resetFile(filepath.Join(repo, pk[0]), pk[1], pk[2])), 0o644); err != nil {
@@ -236,6 +226,23 @@ func main() {
 	if err := os.WriteFile(filepath.Join(out, "overlay.json"), b, 0o644); err != nil {
 		fail(err)
 	}
+}
+
+func applyMutation(name, rel string, raw []byte, applied *int) []byte {
+	if name == "" {
+		return raw
+	}
+	for _, ed := range mutations[name].edits {
+		if ed.file != rel {
+			continue
+		}
+		if !strings.Contains(string(raw), ed.old) {
+			fail("mutation", name, "does not apply to", rel)
+		}
+		raw = []byte(strings.Replace(string(raw), ed.old, ed.new, 1))
+		*applied++
+	}
+	return raw
 }
 
 type rw struct {
